@@ -28,7 +28,7 @@ theorem quoter_exe (qf : Str → Str) (hqf : ∀ s, NoNl s → NoNl (qf s)) (exe
   · intro e he
     show quoter qf (strToCommandArg e) = _
     rw [strToCommandArg_good e (h e he)]
-    exact ninjaQuote_eq _ _ (hqf e (h e he).1)
+    exact ninjaQuote_eq _ (hqf e (h e he).1)
 
 def compileArgs : List CmdArg :=
   [strToCommandArg ('$' :: sARGS), ⟨wO, .none⟩, ⟨'$' :: sOut, .none⟩, strToCommandArg wC, strToCommandArg ('$' :: sIn)]
